@@ -66,6 +66,78 @@ GEN(int) @G(xs []int) {
 	RETURN
 }`, Drives: []Drive{gen("int", "@G", "[]int{5, 6}"), gen("int", "@G", "nil")}},
 
+	{Name: "RangeAssignOperands", Props: []string{"C04", "C03"}, Src: `
+type @P struct{ val int; idx int }
+// '=' form: the iteration values are assigned as in ONE assignment statement - the operands on the left
+// (index expressions, pointer indirections) are evaluated before either variable is assigned
+GEN(int) @G(src []int) {
+	dst := make([]int, len(src)+1)
+	var i int
+	for i, dst[i] = range src {
+		YIELD(i*1000 + dst[0]*10 + dst[1])
+	}
+	YIELD(i*1000 + dst[0]*10 + dst[1])
+	ps := []*@P{{}, {}, {}}
+	p := ps[0]
+	k := 0
+	for k, ps[k].val = range src {
+		p = ps[k]
+		_ = p
+	}
+	YIELD(ps[0].val*100 + ps[1].val*10 + ps[2].val)
+	rs := make([]rune, 4)
+	for i, rs[i] = range "aé" {
+	}
+	YIELD(i*1000000 + int(rs[0])*1000 + int(rs[1]))
+	var key string
+	m := map[string]int{"only": 7}
+	vals := map[string]int{}
+	for key, vals[key] = range m {
+	}
+	YIELD(len(key)*100 + vals[""]*10 + vals["only"])
+	RETURN
+}`, Drives: []Drive{gen("int", "@G", "[]int{1, 2, 3}")}},
+
+	{Name: "RangeBodyRedeclares", Props: []string{"C04", "C03"}, Src: `
+// the body of a range statement is its own block: it may redeclare the range variables, and closures made
+// before the redeclaration keep seeing the range variables
+GEN(string) @Resolve(names []string, alias map[string]string) {
+	for i, name := range names {
+		label := func() string { return string(rune('0'+i)) + ":" + name }
+		name, ok := alias[name]
+		if ok { YIELD(name) }
+		YIELD(label())
+	}
+	RETURN
+}
+GEN(int) @One(xs []int) {
+	for k, v := range xs {
+		v := v * 10
+		k := k + 1
+		YIELD(k*1000 + v)
+	}
+	for k := range xs {
+		k := k * 2
+		YIELD(k)
+	}
+	for _, v := range xs {
+		f := func() int { return v }
+		v := v + 1
+		YIELD(f()*100 + v)
+	}
+	for i, r := range "ab" {
+		r := r + 1
+		i, j := i+10, i
+		YIELD(int(r)*10000 + i*100 + j)
+	}
+	m := map[string]int{"x": 5}
+	for key, val := range m {
+		key, val := key+"!", val+1
+		YIELD(len(key)*10 + val)
+	}
+	RETURN
+}`, Drives: []Drive{gen("string", "@Resolve", `[]string{"a", "b"}, map[string]string{"a": "A"}`), gen("int", "@One", "[]int{3, 4}")}},
+
 	{Name: "RangeStringBytes", Props: []string{"C04", "C10"}, Src: `
 GEN(int) @G(s string) {
 	for i, r := range s {
@@ -237,6 +309,52 @@ GEN(int) @G(n int) {
 	RETURN
 }`, Drives: []Drive{gen("int", "@G", "0"), gen("int", "@G", "2")}},
 
+	{Name: "YieldFromExhausted", Props: []string{"C05", "C09", "C06"}, Src: `
+// an exhausted delegate has no remaining elements: delegating to it again delivers nothing and runs
+// nothing of it again (not even the code after its last yield), however it got exhausted
+GEN(int) @Down(tag string, n int) {
+	for i := n; i != 0; i-- { YIELD(i) }
+	vm.E(tag, "done")
+	RETURN
+}
+GEN(int) @ByHand() {
+	it := GENCALL(int, @Down, "a", 2)
+	for it.MoveNext() { YIELD(10 * it.Current()) }
+	YIELDFROM(it)
+	YIELD(0)
+	YIELDFROM(it)
+	YIELD(-100)
+	RETURN
+}
+GEN(int) @Twice() {
+	it := GENCALL(int, @Down, "b", 2)
+	YIELDFROM(it)
+	YIELD(0)
+	YIELDFROM(it)
+	YIELD(-100)
+	RETURN
+}
+GEN(int) @Shared(it ITER(int), tag int) {
+	YIELD(tag)
+	YIELDFROM(it)
+	YIELD(-tag)
+	RETURN
+}
+GEN(int) @TwoDelegators() {
+	it := GENCALL(int, @Down, "c", 3)
+	YIELDFROM(GENCALL(int, @Shared, it, 1000))
+	YIELDFROM(GENCALL(int, @Shared, it, 2000))
+	RETURN
+}
+func @RangeTwice() int {
+	it := GENCALL(int, @Down, "d", 2)
+	s := 0
+	RANGEITER(v, :=, it) { s += v }
+	RANGEITER(v, :=, it) { s += 100 * v }
+	if it.MoveNext() { s += 10000 }
+	return s
+}`, Drives: []Drive{gen("int", "@ByHand", ""), gen("int", "@Twice", ""), gen("int", "@TwoDelegators", ""), fn("int", "@RangeTwice", "")}},
+
 	// ---------------- C06: consumers ----------------
 	{Name: "ConsumerRange", Props: []string{"C06"}, Src: `
 GEN(int) @Nat(n int) {
@@ -269,6 +387,60 @@ func @Assign(n int) int {
 	}
 	return v
 }`, Drives: []Drive{fn("int", "@Sum", "6, 4"), fn("int", "@Sum", "0, 4"), fn("int", "@Find", "5, 2"), fn("int", "@Find", "3, 9"), fn("int", "@Assign", "3")}},
+
+	{Name: "ConsumerRangeExprOnce", Props: []string{"C06"}, Src: `
+GEN(int) @Log(tag string, n int) {
+	for i := 0; i < n; i++ {
+		vm.E(tag, i)
+		YIELD(i)
+	}
+	vm.E(tag, "$")
+	RETURN
+}
+type @Holder struct{ src ITER(int) }
+// the range expression of a consumer loop is evaluated exactly once, whatever its syntactic form and
+// whether or not the loop has a variable: the body may change what the expression denotes
+func @Swap() int {
+	cur, next := GENCALL(int, @Log, "a", 1), GENCALL(int, @Log, "b", 3)
+	n := 0
+	RANGEITER(, , cur) {
+		n++
+		cur, next = next, cur
+	}
+	_ = next
+	return n
+}
+func @Index() int {
+	its := []ITER(int){GENCALL(int, @Log, "a", 2), GENCALL(int, @Log, "b", 2)}
+	i, n := 0, 0
+	RANGEITER(, , its[i]) {
+		n++
+		i = 1 - i
+	}
+	return n
+}
+func @Field() int {
+	f := &@Holder{src: GENCALL(int, @Log, "a", 2)}
+	n := 0
+	RANGEITER(_, =, f.src) {
+		n++
+		f.src = GENCALL(int, @Log, "b", 2)
+	}
+	rest := 0
+	for f.src.MoveNext() { rest += 10 + f.src.Current() }
+	return n*1000 + rest
+}
+func @WithVar() int {
+	p := GENCALL(int, @Log, "a", 3)
+	q := &p
+	s := 0
+	RANGEITER(v, :=, *q) {
+		s += v
+		other := GENCALL(int, @Log, "b", 5)
+		q = &other
+	}
+	return s
+}`, Drives: []Drive{fn("int", "@Swap", ""), fn("int", "@Index", ""), fn("int", "@Field", ""), fn("int", "@WithVar", "")}},
 
 	{Name: "ConsumerMixed", Props: []string{"C06", "C14"}, Src: `
 GEN(int) @Nat(n int) {
@@ -631,6 +803,32 @@ GEN(int) @Ops(n int) {
 	YIELD(len("abc"))
 	RETURN
 }
+var @next = 100
+var @level = 1
+const @K0 = 7
+var @nilp *int
+GEN(int) @Globals(n int) {
+	for i := 0; i < n; i++ {
+		YIELD(@next) // a bare package-level variable is read when the yield is reached, every time
+		@next++
+	}
+	for {
+		YIELD(@level)
+		@level *= 2
+		if @level > 8 { break }
+	}
+	YIELD(@K0)
+	@next, @level = 100, 1
+	RETURN
+}
+GEN(any) @Sentinels(n int) {
+	YIELD(nil)
+	YIELD(true)
+	YIELD(@nilp)
+	x := n
+	YIELD(x) // a local
+	RETURN
+}
 GEN(string) @Strs(n int) {
 	YIELD("lit")
 	YIELD("a" + "b")
@@ -638,7 +836,7 @@ GEN(string) @Strs(n int) {
 	YIELD([]string{"p", "q"}[@id("sidx", n % 2)])
 	RETURN
 }`, Drives: []Drive{gen("any", "@Head", "1"), gen("any", "@Loop", "0"), gen("any", "@Loop", "1"), gen("any", "@Loop", "3"),
-		gen("int", "@Ops", "2"), gen("string", "@Strs", "1")}},
+		gen("int", "@Ops", "2"), gen("string", "@Strs", "1"), gen("int", "@Globals", "3"), gen("int", "@Globals", "0"), gen("any", "@Sentinels", "4")}},
 
 	// ---------------- C18 / C02: panics and effects at precise points ----------------
 	{Name: "PanicPositions", Props: []string{"C18", "C02"}, Src: `
@@ -746,6 +944,33 @@ func @F(n int) int {
 	vari := func(xs ...int) int { return len(xs) }
 	return int(conv(n)) + gen(n) + inst(n) + pkgf(n) + fld(n) + len(mk(n)) + vari(1, 2)
 }
+func @sub(a, b int) int { return a - b }
+func @less(a, b int) bool { return a < b }
+func @sum(xs []int) int { t := 0; for _, x := range xs { t += x }; return t }
+func @show(x any) string { if v, ok := x.(int); ok { return string(rune('a' + v)) }; return "?" }
+func @zero() int { return 0 }
+var @flip = func(a, b int) int { return @sub(b, a) } // package level, arguments swapped
+func @Perm(n int) int {
+	rsub := func(a, b int) int { return @sub(b, a) }     // swapped: not eta
+	same := func(a, b int) int { return @sub(a, b) }     // eta shape over a declared function: fine either way
+	dup := func(a, b int) int { return @sub(a, a) }      // duplicated
+	desc := func(a, b int) bool { return @less(b, a) }
+	three := func(a, b, c int) int { return @sub(@sub(a, b), c) } // nested call: not eta shape
+	best := 0
+	for _, x := range []int{3, 9, 4} { if desc(best, x) { best = x } }
+	return rsub(10, 3)*10000 + same(10, 3)*1000 + dup(n, 5)*100 + best*10 + three(9, 1, 1) + @flip(1, 2)
+}
+func @Types(n int) string {
+	widen := func(x int) any { return @dbl(x) }           // result type differs from the callee's
+	spread := func(xs ...int) int { return @sum(xs) }     // variadic closure over a slice parameter
+	narrow := func(x int) string { return @show(x) }      // parameter type differs from the callee's
+	unnamed := func(int) int { return @zero() }           // unnamed parameter, callee takes none
+	var f func(int) any = widen
+	_, isInt := f(n).(int)
+	r := narrow(n) + string(rune('0'+spread(1, 2, 3))) + string(rune('0'+unnamed(5)))
+	if isInt { r += "i" }
+	return r
+}
 GEN(int) @Walk(head *@Node) {
 	for n := head; n.Valid(); n = n.next { // the condition closure must call Valid on the CURRENT n
 		YIELD(n.v)
@@ -756,7 +981,7 @@ func @List(k int) *@Node {
 	var h *@Node
 	for i := k; i > 0; i-- { h = &@Node{i, h} }
 	return h
-}`, Drives: []Drive{fn("int", "@F", "3"), gen("int", "@Walk", "@List(3)"), gen("int", "@Walk", "nil")}},
+}`, Drives: []Drive{fn("int", "@F", "3"), gen("int", "@Walk", "@List(3)"), gen("int", "@Walk", "nil"), fn("int", "@Perm", "4"), fn("string", "@Types", "2")}},
 
 	{Name: "ClosureControlFlow", Props: []string{"C12", "C13", "C11"}, Src: `
 GEN(int) @G(n int) {
